@@ -107,6 +107,16 @@ def run(ctx):
             good = good and ex(prog, fa).local(0)[0] == 'call' and ex(prog, fq).local(0)[0] == 'call' and ex(prog, fa).local(0)[1] == priv and ex(prog, fq).local(0)[1] == priv
             ctx.check(good, 'R2', 'shared-impl:' + priv.rsplit('::', 1)[-1], fq, '%s and %s return %s(request, ..) unchanged' % (a.rsplit('::', 1)[-1], b.rsplit('::', 1)[-1], priv.rsplit('::', 1)[-1]),
                       'query and update variant do not share %s' % priv)
+    # the entry wrappers of a query / update pair refuse under the same gates (one that traps where the
+    # other answers does not "return the same values")
+    for a, b in (('ic_btc_canister::get_balance', 'ic_btc_canister::get_balance_query'), ('ic_btc_canister::get_utxos', 'ic_btc_canister::get_utxos_query')):
+        fa, fq = ctx.fn('R2', a), ctx.fn('R2', b)
+        if fa and fq:
+            def gates(f_):
+                return sorted(c.short.rsplit('::', 1)[-1] for c in f_.calls() if not c.cleanup and c.short and c.short.startswith('ic_btc_canister::verify_'))
+            ctx.check(gates(fa) == gates(fq) and len(gates(fa)) >= 2, 'R2', 'same-gates:' + a.rsplit('::', 1)[-1], fq,
+                      '%s and %s call the same verifiers %s' % (a.rsplit('::', 1)[-1], b.rsplit('::', 1)[-1], gates(fa)),
+                      'the update variant is gated by %s, the query variant by %s' % (gates(fa), gates(fq)))
     # ---------------- R3
     tabs = {}
     for nm, f, errp in (('get_utxos', fu, 'GetUtxosError'), ('get_balance', fb, 'GetBalanceError')):
